@@ -3,6 +3,7 @@
 package zz_verif
 
 import (
+	ipfslog "berty.tech/go-ipfs-log"
 	"berty.tech/go-ipfs-log/iface"
 	"berty.tech/go-ipfs-log/internal/vx"
 )
@@ -12,12 +13,28 @@ import (
 // empty); the bound n is a symbolic integer in [0, total+2]; the twin A2 performs the unbounded merge.
 func H_C16() {
 	cfg := histParams()
-	cfg.R = 2
+	pre := vx.Param("PRE", 0) == 1
+	if !pre {
+		cfg.R = 2
+	}
 	h := newHist(cfg)
 	h.run(nil, nil)
 	A, B := h.logs[0], h.logs[1]
-	A2 := freshObserver(h, 0)
-	A2.Join(A, -1)
+	var A2 *ipfslog.IPFSLog
+	if pre {
+		// the destination is itself the result of an earlier size-bounded merge (of the third replica): the twin
+		// is forked from A before that merge and goes through the same bounded merge, then merges B unbounded
+		A2 = newLogOpt(h.api, h.writerOf(0), &ipfslog.LogOptions{SortFn: h.sortFn(), IO: h.io(), Entries: A.GetEntries(), Heads: A.Heads().Slice()})
+		m := vx.IntRange("presize", 0, h.logs[2].Len()+1)
+		_, e1 := A.Join(h.logs[2], m)
+		_, e2 := A2.Join(h.logs[2], m)
+		vx.Assert("C16", e1 == nil && e2 == nil, "a size-bounded merge of a valid log succeeds")
+		vx.Assert("C16", sameSeq(A.Values().Slice(), A2.Values().Slice()), "the same bounded merge on two equal logs gives equal logs")
+		vx.Cover("bounded-merge-before")
+	} else {
+		A2 = freshObserver(h, 0)
+		A2.Join(A, -1)
+	}
 	A2.Join(B, -1)
 	full := A2.Values().Slice()
 	total := len(full)
